@@ -171,23 +171,19 @@ type memorySizer func(minPages uint32, maxPages *uint32) (min uint32, capacity u
 // memoryCapacityFromMax is true.
 func newMemorySizer(memoryLimitPages uint32, memoryCapacityFromMax bool) memorySizer {
 	return func(minPages uint32, maxPages *uint32) (min, capacity, max uint32) {
+		// The limits never depend on memoryCapacityFromMax: it only chooses the capacity.
+		max = memoryLimitPages
 		if maxPages != nil {
-			if memoryCapacityFromMax {
-				return minPages, *maxPages, *maxPages
+			max = *maxPages
+			// A value over wasm.MemoryLimitPages is invalid: let it propagate, we will fail later.
+			// A valid value which goes over the run-time limit is clamped to the limit.
+			if max <= wasm.MemoryLimitPages && max > memoryLimitPages {
+				max = memoryLimitPages
 			}
-			// This is an invalid value: let it propagate, we will fail later.
-			if *maxPages > wasm.MemoryLimitPages {
-				return minPages, minPages, *maxPages
-			}
-			// This is a valid value, but it goes over the run-time limit: return the limit.
-			if *maxPages > memoryLimitPages {
-				return minPages, minPages, memoryLimitPages
-			}
-			return minPages, minPages, *maxPages
 		}
 		if memoryCapacityFromMax {
-			return minPages, memoryLimitPages, memoryLimitPages
+			return minPages, max, max
 		}
-		return minPages, minPages, memoryLimitPages
+		return minPages, minPages, max
 	}
 }
